@@ -15,13 +15,13 @@ MCSP == { <<"d", "dx">> }
 E(n,k,m,t,c,tg) == [name |-> n, k |-> k, m |-> m, t |-> t, c |-> c, tgt |-> tg]
 
 \* --- safety alphabet (C01 / C04 / C12): hostile names and targets ---
-NamesQ == { <<"a">>, <<"a","">>, <<"..n">>, <<"s","a">>, <<"s","u">>, <<"","a">>, <<"..","dx","f">>, <<"s","..","a">>, <<"x","..","a","f">> }
-NamesT == NamesQ \cup { <<"b">>, <<"s","">>, <<".","b">>, <<"b","c">>, <<"">>, <<"","">>, <<".">>, <<"s","","a">>, <<"..","d","a">> }
+NamesQ == { <<"a">>, <<"a","">>, <<"..n">>, <<"..">>, <<"s","u">>, <<"s","u","a">>, <<"","a">>, <<"..","dx","f">>, <<"s","..","a">>, <<"x","..","a","f">> }
+NamesT == NamesQ \cup { <<"","","a">>, <<"b">>, <<"s","">>, <<".","b">>, <<"b","c">>, <<"">>, <<"","">>, <<".">>, <<"s","","a">>, <<"..","d","a">> }
 TargetsQ == { <<"b">>, <<"..">>, <<"..","d","a">>, <<"..","dx">>, <<"s","u","..","v">>, <<"s","u","..","w">>, <<"","A","v">>, <<"","A","d","a">>, <<"a","..","..","w">> }
 TargetsT == TargetsQ \cup { <<"..","..","v">>, <<"..","a">>, <<"s","u","..","w">>, <<".">>, <<"","A","dx">> , <<"u","..","..","v">> }
 
 Alpha(Names, Targets) ==
-   { E(n, "f", m, 2, c, <<>>) : n \in Names, m \in {644, 444}, c \in {1, 2} }
+   { E(n, "f", x[1], 2, x[2], <<>>) : n \in Names, x \in { <<644, 1>>, <<444, 2>> } }
    \cup { E(n, "d", m, 3, 0, <<>>) : n \in Names, m \in {755, 555} }
    \cup { E(n, "l", 777, 4, 0, tg) : n \in Names, tg \in Targets }
    \cup { E(<<"a">>, k, 644, 2, 0, <<>>) : k \in {"p", "h", "g"} }
@@ -34,13 +34,13 @@ TargetsF == { <<"a">>, <<"s","a">>, <<"..","a">>, <<"t","a">>, <<"nowhere">> }
 AlphaFidelity ==
    { E(n, "f", m, t, c, <<>>) : n \in NamesF \ {<<"s","">>, <<"s","t","">>, <<"s">>}, m \in {644, 400}, t \in {2}, c \in {0, 1, 2} }
    \cup { E(n, "d", m, t, 0, <<>>) : n \in {<<"s","">>, <<"s">>, <<"s","t","">>, <<".","s","">>}, m \in {755, 500, 700}, t \in {3, 5} }
-   \cup { E(n, "l", 777, 4, 0, tg) : n \in {<<"b">>, <<"s","a">>, <<"s","l">>}, tg \in TargetsF }
+   \cup { E(n, "l", 777, 4, 0, tg) : n \in {<<"b">>, <<"s","a">>, <<"s","l">>, <<"","a">>, <<"","","a">>}, tg \in TargetsF }
    \cup { E(<<"pax_global_header">>, "g", 644, 2, 0, <<>>), E(<<"a">>, "p", 644, 2, 0, <<>>), E(<<"b">>, "h", 644, 2, 0, <<"a">>) }
 AlphaFidelityQ ==
    { E(n, "f", m, 2, c, <<>>) : n \in { <<"a">>, <<"s","a">>, <<"","a">>, <<".","s","a">>, <<"s","t","a">>, <<"..n">> }, m \in {644, 400}, c \in {0, 2} }
    \cup { E(n, "d", m, 3, 0, <<>>) : n \in {<<"s","">>, <<"s">>, <<"s","t","">>}, m \in {755, 500} }
    \cup { E(<<"s","">>, "d", 700, 5, 0, <<>>) }
-   \cup { E(n, "l", 777, 4, 0, tg) : n \in {<<"b">>, <<"s","l">>, <<"","a">>, <<"s">>}, tg \in { <<"a">>, <<"..","a">>, <<"nowhere">> } }
+   \cup { E(n, "l", 777, 4, 0, tg) : n \in {<<"b">>, <<"s","l">>, <<"","","a">>, <<"s">>}, tg \in { <<"a">>, <<"..","a">>, <<"nowhere">> } }
    \cup { E(<<"pax_global_header">>, "g", 644, 2, 0, <<>>), E(<<"a">>, "p", 644, 2, 0, <<>>), E(<<"b">>, "h", 644, 2, 0, <<"a">>) }
 
 \* --- allow-list alphabet (C04 with AllowSymlinkTarget): A/w is allow-listed ---
@@ -48,6 +48,12 @@ MCAllowW == { <<"A","w">> }
 AlphaAllow ==
    { E(n, "l", 777, 4, 0, tg) : n \in { <<"a">>, <<"s","a">> }, tg \in { <<"b">>, <<"..","w">>, <<"..","..","w">>, <<"..","..","w","x">>, <<"..","dx">>, <<"..","..","..","w">> } }
    \cup { E(n, "f", 644, 2, 1, <<>>) : n \in { <<"a">>, <<"a","f">> } } \cup { E(<<"a">>, "d", 755, 3, 0, <<>>) }
+
+\* --- degenerate names (C19): nothing but separators and dots ---
+NamesDegenerate == { <<"">>, <<"","">>, <<"","","">>, <<".">>, <<".","">>, <<"..">>, <<"","..">>, <<"a","","b">>, <<"",".","">>, <<"a",".">>, <<".",".","a">> }
+AlphaDegenerate ==
+   { E(n, k, 644, 2, 1, IF k = "l" THEN <<"b">> ELSE <<>>) : n \in NamesDegenerate, k \in {"f", "d", "l", "g", "p"} }
+   \cup { E(<<"a">>, "l", 777, 4, 0, tg) : tg \in { <<>>, <<"">>, <<"","">>, <<".">>, <<"","..">> } }
 
 \* one header record per run: the arena the cases are to be replayed in
 Header == [fam |-> "unpack-h", fs0 |-> Snapshot(FS0), dst |-> Dst, sp |-> SP, allow |-> Allow]
